@@ -65,6 +65,8 @@ class Models16(CommonModels):
         return CommonModels.callable_(self, ex, path, obj, args, kw)
 
     def str_method(self, ex, path, s, name, args, kw):
+        if name == 'hex' and not args and isinstance(s, VBytes) and not concrete_of(s)[0]:
+            return [(path, VStr(F_hex(s.t)))]        # bytes.hex() == b2a_hex(bytes).decode('ascii')
         if name == 'upper' and not args:
             return [(path, type(s)(F_upper(s.t)))]
         if name in ('decode', 'encode') and not concrete_of(s)[0]:
